@@ -480,6 +480,9 @@ type fnTurnClient struct {
 func (f *fakeNet) turnFactory(cfg *turn.ClientConfig) (turnClient, error) {
 	f.mu.Lock()
 	defer f.mu.Unlock()
+	if f.turnMode == "factory-error" {
+		return nil, errors.New("fakeNet: injected TURN client construction error") //nolint:err113
+	}
 	tc := &fnTurnClient{id: len(f.turnClients), fn: f, cfgConn: cfg.Conn}
 	f.turnClients = append(f.turnClients, tc)
 
@@ -515,7 +518,11 @@ func (tc *fnTurnClient) Allocate() (net.PacketConn, error) {
 	}
 	tc.fn.mu.Lock()
 	tc.fn.nextPort++
-	s := tc.fn.newSock("relay", netip.AddrPortFrom(netip.MustParseAddr("198.51.100.99"), uint16(tc.fn.nextPort))) //nolint:gosec
+	relayIP := "198.51.100.99"
+	if mode == "relay-linklocal" {
+		relayIP = "fe80::77" // filtered for location-tracking reasons by the gatherer
+	}
+	s := tc.fn.newSock("relay", netip.AddrPortFrom(netip.MustParseAddr(relayIP), uint16(tc.fn.nextPort))) //nolint:gosec
 	tc.fn.mu.Unlock()
 	tc.mu.Lock()
 	tc.allocated = s
